@@ -2743,7 +2743,7 @@ class nx_match (object):
       return
 
     if isinstance(value, nxm_entry):
-      if nxt != nxm_entry._nxm_type:
+      if nxt != value._nxm_type:
         raise ValueError("Unmatched types")
       if entry is None:
         self.append(value)
